@@ -79,6 +79,7 @@ EXTRA = {
  "C12": " MemoryTimeline._remove_interval / _remove_recurring_instance / _remove_series / _add_interval / _add_recurring (id and metadata part) / fetch and the dispatch of MutableTimeline.add / remove / remove_series regenerated from the source text and proved equal to mstep / mfetch (`C12_source_*`, Proofs/GenEq_mem.v).",
  "C13": " All of metrics.py regenerated from the source text (aggregation helpers, closures, _period_windows, _windowed_agg, _grouped_agg, the five public functions; `C13_source_*`, Proofs/GenEq_met.v; no division by zero in the code text: `g_cov_agg_den_pos`).",
  "C14": " Timeline.__getitem__ (the clip of every bounded or half-open slice) regenerated from the source text (`C14_source_getitem_is_model`).",
+ "C16": " Tie C also for the stored timelines overlapping() reads: MemoryTimeline._fetch_static, fetch and _remove_interval as the code has them (`C16_source_fetch_static_is_model`, ...).",
  "C17": " buffer() / merge_within() validation, _Buffered / _MergedWithin constructors and the reverse branch of _MergedWithin.fetch regenerated from the source text (`g_buffer_rejects_negative`, `g_buffer_chain_eq`, `g_merge_within_fetch_is_model`).",
  "C18": " properties.py and the Filter classes regenerated from the source text with a value-level model that also says where Python raises (`C18_source_filter_apply_is_feval`, `C18_source_time_filters_are_feval`, Proofs/GenEq_filt*.v).",
  "C19": " rrule_kwargs_to_rrule_string / to_rrule_string regenerated from the source text (`src_rrule_text_roundtrip`, Proofs/GenEq_rec.v).",
